@@ -28,7 +28,7 @@ CHECKS = {
             "own state, not captured caller data (PU-CAPT, decided from every store to the attribute in the class hierarchy), a "
             "clock reading that only reaches logging calls — also through parameters of helpers — is no source of "
             "non-repeatability (PU-RNG). "
-            "PU-SHARE: a mutable module-level object is not stored on an instance or returned without a copy. PU-LAZY: every public method of the two landscape classes, "
+            "PU-SHARE: a mutable module-level object, or a mutable entry of a module-level table, is not stored on an instance or returned without a copy. PU-FLAGS: the writeable flag of a caller's array (an effect on the array object, not a write: fresh views do not count) is put back in a finally, faithfully. PU-CACHE also covers a setter that is bypassed (pattern F) and identity-keyed caches validated against the contents (pattern G: the record must hold a private copy); collections.* / weakref containers at module level are module state. PU-LAZY: every public method of the two landscape classes, "
             "and every module-level function handed a landscape, reads what compute_landscape stores lazily (critical_pairs / values / max_depth, read off its stores) only behind the computation. "
             "Declines: bit-identical repeatability of floating-point results.",
             "Trusted: the copy/view/mutator table for external callables in pst/core/own.py; user-supplied weight/kernel "
@@ -104,7 +104,7 @@ CHECKS.update({
                   "translation-weight typing; normal-form comparison of the projected vectors; loop-summary rules; narrowing "
                   "dataflow (what is single precision / what is reached from the diagrams) for SW-DTYPE",
             CLAUSE + "Proves SW-DEG (linear scaling) and SW-SHIFT (diagonal translation invariance incl. negative "
-            "coordinates) for every input in exact arithmetic; decides SW-PROJ, SW-AUG, SW-AVG (the sweep may be split over helpers of the module: a generator of per-direction costs and an averaging routine — every loop that carries state is read, each must make M trips, the weight must be 1/M of the caller's M), SW-DTYPE (no float store into an array typed by the caller's "
+            "coordinates) for every input in exact arithmetic; decides SW-PROJ, SW-AUG, SW-EMPTY (refute-only: with one empty diagram the function returns a value, it does not raise), SW-AVG (the sweep may be split over helpers of the module: a generator of per-direction costs and an averaging routine — every loop that carries state is read, each must make M trips, the weight must be 1/M of the caller's M), SW-DTYPE (no float store into an array typed by the caller's "
             "data). Declines: <=2*W1, triangle "
             "inequality, diagonal-point insensitivity, quadrature error in M.",
             SYMNOTE + "float32 rounding of the direction vector ignored within 1e-6.", "DESIGN.md §4 C15"),
@@ -133,7 +133,7 @@ CHECKS.update({
     "C13": (True, "literal-table validation (Legendre roots/weights; if-chain or table-driven rules), guard cut-off rule over "
                   "the helper-inlined AST + reaching definitions, units typing and normal forms from partial symbolic "
                   "evaluation, dispatch decided on the observed (stubbed) calls of the closed forms and their path conditions",
-            CLAUSE + "Decides KN-DTYPE (no accumulator typed by the coordinates receives the fractional terms), KN-GL, KN-REGIME, KN-GUARD, KN-AFF, KN-UNITS, KN-NORM, KN-SBVN, KN-UNI, KN-DISPATCH, KN-STALE (reaching definitions: nothing computed from the un-reflected coordinate "
+            CLAUSE + "Decides KN-DTYPE (no accumulator typed by the coordinates receives the fractional terms), KN-GL and KN-REGIME (by evaluating gauss_legendre_quad at correlations on both sides of each published bound, both signs, and checking the tables it returns; literal readers as fall-back), KN-GUARD, KN-AFF, KN-UNITS, KN-NORM, KN-SBVN, KN-UNI, KN-DISPATCH, KN-STALE (reaching definitions: nothing computed from the un-reflected coordinate "
             "is used after the reflection for negative correlation, whether the reflection re-binds the name or introduces a "
             "new one), KN-PURE. Declines: "
             "monotonicity, range [0,1], tail limits and 1e-7 agreement with a reference CDF for all arguments.",
@@ -144,7 +144,7 @@ CHECKS.update({
     "C17": (True, "site rules over resolved calls on the helper-inlined view (coercion, same-mask restriction on both axes, "
                   "pair enumeration and symmetrisation with a write-set argument for 'never symmetrised', type ladder) "
                   "+ call-graph reachability of random generators; GH-RESULT: the entry point evaluated with the per-pair work "
-                  "stubbed for collections of 2, 3, 4 graphs and the two-argument form; GH-INT: the type chooser evaluated at the "
+                  "stubbed for collections of 2, 3, 4, 5 and 7 graphs (chunked pair drivers followed) and the two-argument form; GH-INT: the type chooser evaluated at the "
                   "values around the type limits; GH-MAXD: bound provenance — backward expansion (reaching definitions, parameters into callers' arguments, helper returns, NamedTuple fields and "
                   "single __init__ stores) of the two arguments of the distance-histogram builder along every call path",
             CLAUSE + "Decides GH-COERCE, GH-LCC, GH-SYM (incl. a normal form of triangle index pairs — triu/tril_indices(_from), "
@@ -216,7 +216,7 @@ CHECKS.update({
     "C18": (True, "inter-procedural effect analysis (transform is read-only), call-wiring rule for fit_transform, and "
                   "history-dependence analysis by symbolically executing two successive fits on different generic data (no verdict on "
                   "an inexact run); TF-FIXED: a user-fixed end-point is still the user's symbol after two fits; TF-ORDER: transform / "
-                  "fit_transform evaluated on collections of 2-5 diagrams, serial and n_jobs=2, with the per-diagram routine observed",
+                  "fit_transform evaluated on collections of 2-5, 33 and 67 diagrams, serial and n_jobs=2, with the per-diagram routine observed",
             CLAUSE + "Decides TF-RO, TF-CACHE (an attribute rebuilt under a recorded key is a memo, not fitted state: the key must contain every "
             "outside-set attribute the build follows through the class's attribute dependency graph), TF-DATA (fit / transform / fit_transform never write through the data they are given), TF-FT (by evaluation when the call sites are not the plain ones: fit_transform against fit followed by transform — effective birth-persistence coordinates handed to the kernel, fitted geometry, returned value), "
             "TF-ORDER (lists of 2-5 diagrams and a collection given as one stacked array), TF-HIST. The landscaper latches start/stop across fits: genuine defect "
@@ -233,7 +233,7 @@ CHECKS.update({
                   "padding/re-sampling on the helper-inlined view",
             CLAUSE + "Decides AR-RETVAL (no operator takes an operand's data from the return value of a call that can return nothing), AR-EFFECT, AR-OWN, AR-LAZY, AR-GUARD, AR-UNARY, AR-PAD (evaluator-based: what union_vals / "
             "union_crit_pairs return for operands of different depth), AR-SNAP (decided on the constructor calls observed while snap_pl is followed on two landscapes with independent symbolic "
-            "grids), AR-LAZYREAD (operators compute lazily built operands before reading anything compute_landscape stores, of either operand), AR-LC, AR-DEFAULT, AR-STYLE (the landscape tools executed with the grid given by keyword and by position, the tool they hand over to observed: the grid that arrives is the one asked for), and — BOUNDED — AR-MERGE: the "
+            "grids), AR-FLAGS (operands frozen while they are read come back with the flag they had), AR-LAZYREAD (operators compute lazily built operands before reading anything compute_landscape stores, of either operand), AR-LC, AR-DEFAULT, AR-STYLE (the landscape tools executed with the grid given by keyword and by position, the tool they hand over to observed: the grid that arrives is the one asked for), and — BOUNDED — AR-MERGE: the "
             "slope merge (pos_to_slope_interp / sum_slopes / slope_to_pos_interp through union_crit_pairs) is followed for every "
             "ordering class (interleaving with ties) of the breakpoints of two depths with up to 3 breakpoints each (thorough: "
             "4; 126 / 787 classes), symbolic ordinates, and equals f_A + f_B at every breakpoint of the union. Declines: the "
